@@ -32,17 +32,42 @@ func sign(x int) int {
 	return 0
 }
 
+// safeCmp runs the library's comparison; a panic inside it (the library panics on values it considers
+// impossible) is an observation, not a harness failure.
+func safeCmp(an, bn verifhooks.Number) (got int, panicked string) {
+	defer func() {
+		if r := recover(); r != nil {
+			panicked = fmt.Sprint(r)
+		}
+	}()
+	return an.Cmp(bn), ""
+}
+
+func safePreds(an, bn verifhooks.Number) (eq, gt, ge, lt, le bool, panicked string) {
+	defer func() {
+		if r := recover(); r != nil {
+			panicked = fmt.Sprint(r)
+		}
+	}()
+	return an.Equal(bn), an.GreaterThan(bn), an.GreaterThanOrEqual(bn), an.LessThan(bn), an.LessThanOrEqual(bn), ""
+}
+
 func cmpPair(c *ev.Ctx, a, b string, an, bn verifhooks.Number, ad, bd decimal.Dec) {
 	c.Eval(true)
-	got := an.Cmp(bn)
+	got, pan := safeCmp(an, bn)
 	want := ad.Cmp(bd)
+	if pan != "" {
+		c.Violate("cmp;"+a+";"+b, fmt.Sprintf("Number(%s).Cmp(%s) panics: %s", a, b, pan), caseT{Kind: "cmp", A: a, B: b})
+		return
+	}
 	if sign(got) != sign(want) {
 		c.Violate("cmp;"+a+";"+b, fmt.Sprintf("Number(%s).Cmp(%s) = %d, exact order of %s and %s is %d", a, b, got, ad, bd, want), caseT{Kind: "cmp", A: a, B: b})
 		return
 	}
 	// derived predicates
-	if an.Equal(bn) != (want == 0) || an.GreaterThan(bn) != (want > 0) || an.GreaterThanOrEqual(bn) != (want >= 0) ||
-		an.LessThan(bn) != (want < 0) || an.LessThanOrEqual(bn) != (want <= 0) {
+	eq, gt, ge, lt, le, pan := safePreds(an, bn)
+	if pan != "" || eq != (want == 0) || gt != (want > 0) || ge != (want >= 0) ||
+		lt != (want < 0) || le != (want <= 0) {
 		c.Violate("cmp-pred;"+a+";"+b, fmt.Sprintf("comparison predicates of Number(%s) vs Number(%s) disagree with exact order %d", a, b, want), caseT{Kind: "cmp", A: a, B: b})
 	}
 }
@@ -195,7 +220,11 @@ func replayUnit(cs caseT) (bool, string) {
 		if aerr != nil || berr != nil || !aok || !bok {
 			return false, "not comparable"
 		}
-		return sign(an.Cmp(bn)) != sign(ad.Cmp(bd)), fmt.Sprintf("Cmp(%s,%s)=%d exact=%d", cs.A, cs.B, an.Cmp(bn), ad.Cmp(bd))
+		got, pan := safeCmp(an, bn)
+		if pan != "" {
+			return true, fmt.Sprintf("Cmp(%s,%s) panics: %s", cs.A, cs.B, pan)
+		}
+		return sign(got) != sign(ad.Cmp(bd)), fmt.Sprintf("Cmp(%s,%s)=%d exact=%d", cs.A, cs.B, got, ad.Cmp(bd))
 	}
 	return false, "unknown kind"
 }
